@@ -198,6 +198,19 @@ if __name__ == '__main__':
         if 'C08' in which and N * (m + 1) <= N * mmax:
             bad += nesting(N, m)
         if bad: break
+    if not bad and 'C09' in which:
+        # the deepest admissible densities (N*m close to 50), a handful of subintervals each (no enumeration)
+        for (n_, m_) in ((2, 25), (2, 24), (3, 16), (5, 10), (4, 12)):
+            e = Evolvent([0.0] * n_, [1.0] * n_, n_, m_)
+            K = 2 ** (n_ * m_)
+            for i in (1, 3, K // 3 | 1, K // 2 + 1, K - 1, K - 2, 12345 | 1):
+                i = i % K
+                y = e.GetImage(float(F(2 * i + 1, 2 * K)))
+                for q in (e.GetInverseImage(np.array(y)), e.GetPreimages(np.array(y))):
+                    if F(float(q)) != F(i, K):
+                        bad.append('C09: N=%d m=%d inverse(image(subinterval %d)) = %r, expected %s' % (n_, m_, i, q, F(i, K))); break
+                if bad: break
+            if bad: break
     for b in bad[:10]: print('REPRODUCED', b)
     sys.exit(1 if bad else 0)
 '''
